@@ -96,13 +96,13 @@ func init() {
 			{"C01.R2@batch|*:cb:Exec", 1, "per-item exec"}, {"C01.R3@batch|*:cb:Post", 1, "batch post"},
 			{"C01.R6@*:delegation", 10, "library phase methods forward positionally"}, {"C01.R7@*:implements-*", 18, "method-set table"}, {"C01.R7@*-resolution", 30, "promoted method resolution"}},
 		Assumptions: commonAssumptions})
-	reg(&Prop{ID: "C02", Units: []string{"run", "loops", "adapters"}, Technique: "static analysis: scalar-evolution trip-count analysis + path-sensitive retry typestate over go/ssa",
+	reg(&Prop{ID: "C02", Units: []string{"run", "loops", "adapters", "config"}, Technique: "static analysis: scalar-evolution trip-count analysis + path-sensitive retry typestate over go/ssa",
 		Explanation: lifeExpl + " C02 decides: (R1, static arithmetic) every loop that directly contains an exec attempt has a unit-step attempt counter whose exit test, evaluated after attempt j, is equivalent to j < V for one symbolic V, and (R1, path-sensitive half) V is the node's GetMaxRetries() value, or the constant 1 for a node known not to expose retry settings; (R2) exactly one attempt per iteration; (R3) a further attempt only after a known-failed one, and a run fails with an exec error only after the budget test exhausted; (R4) the fallback is invoked at most once, only after exhaustion with the last attempt known failed, on the node being run, with (prep value, that last error), and is not skipped when the node may implement it. Same rules on the single-node path and on the per-item path.",
 		CaseRule:    "an obligation instance is one (abstract path, site) pair or one loop for the static arithmetic rule; distinct = distinct rule@construct keys",
-		Floors: []Floor{{"C02.R1@*:retry-loop", 2, "static trip-count obligations (single-node loop and per-item loop)"}, {"C02.R1@single|*:budget-test", 1, "budget provenance, single"}, {"C02.R1@batch|*:budget-test", 1, "budget provenance, per item"},
+		Floors: []Floor{{"C02.R1@*:retry-loop", 2, "static trip-count obligations (single-node loop and per-item loop)"}, {"C02.R1@*:interface-shape", 3, "the node interfaces have their documented method sets"}, {"C02.R1@BaseNode.GetMaxRetries:identity", 1, "the budget getter returns the configured budget"}, {"C02.R1@single|*:budget-test", 1, "budget provenance, single"}, {"C02.R1@batch|*:budget-test", 1, "budget provenance, per item"},
 			{"C02.R3@single|*:cb:Exec", 1, "retry precondition"}, {"C02.R3@CustomNode.Exec:error-checked", 1, "function-style exec reports failures as failures"}, {"C02.R4@single|*:cb:ExecFallback", 1, "fallback, single"}, {"C02.R4@batch|*:cb:ExecFallback", 1, "fallback, per item"}, {"C02.R2@*:retry-loop-iteration", 2, "one attempt per iteration"}},
 		Assumptions: append(append([]string{}, commonAssumptions...), "a budget that changes between two reads of GetMaxRetries() is outside the property (it is read once per run/item)")})
-	reg(&Prop{ID: "C20", Units: []string{"run"}, Technique: "static analysis: path-sensitive wait-event typestate over go/ssa",
+	reg(&Prop{ID: "C20", Units: []string{"run", "config"}, Technique: "static analysis: path-sensitive wait-event typestate over go/ssa",
 		Explanation: lifeExpl + " C20 decides the structural cause of the timing statement: on every retry path a wait event (select on a timer channel created with the node's GetWait() value) lies between the failed attempt and the next one unless wait<=0 is established on that path; no wait precedes the first attempt or follows the last one (before fallback/post/return/next item); every wait is a select that also receives from ctx.Done(); time.Sleep and bare timer receives are not used. Measured durations are delegated to the time package's contract.",
 		CaseRule:    "an obligation instance is one (abstract path, site) pair; distinct = distinct rule@construct keys",
 		Floors:      []Floor{{"C20.R1@single|*:cb:Exec", 1, "wait before retries, single"}, {"C20.R1@batch|*:cb:Exec", 1, "wait before retries, per item"}, {"C20.R4@*", 2, "interruptible wait selects"}, {"C20.R2@*", 2, "no wait before first attempt"}, {"C20.R3@*", 3, "no wait after last attempt"}},
@@ -162,7 +162,7 @@ func init() {
 		Floors: []Floor{{"C12.R1@WorkerPool.Submit:wg-add", 1, "Add before send"}, {"C12.R2@WorkerPool.Submit:enqueue", 1, "blocking send"}, {"C12.R3@WorkerPool.Submit.wrapper:return", 1, "wrapper runs task once, Done once"},
 			{"C12.R3@WorkerPool.Submit.wrapper:done", 1, "Done on the pool's WaitGroup"}, {"C12.R4@WorkerPool.worker:return", 1, "worker exits on close/done"}, {"C12.R5@WorkerPool.Wait:*", 2, "Wait"}, {"C12.R6@WorkerPool.Close:*", 3, "Close"}, {"C12.R7@package:*", 1, "who may touch"}},
 		Assumptions: append(append([]string{}, commonAssumptions...), "visibility of task effects after Wait is the WaitGroup happens-before contract; Submit after Close is outside the property")})
-	reg(&Prop{ID: "C08", Units: []string{"pool", "run"}, Technique: "static analysis: trip-count analysis of the spawn loop + path-sensitive typestate of worker and batch dispatch",
+	reg(&Prop{ID: "C08", Units: []string{"pool", "run", "config"}, Technique: "static analysis: trip-count analysis of the spawn loop + path-sensitive typestate of worker and batch dispatch",
 		Explanation: poolExpl + " " + batchExpl + " C08 decides: the only go statement of the package is in the pool constructor and starts the worker method on the new pool; its loop runs exactly max(1, workers) times (scalar-evolution arithmetic plus bound provenance: `workers` under workers>0, the constant 1 otherwise), one start per iteration; the worker's only blocking point is the receive on the pool's channels and it runs each received task synchronously, once, with no goroutine of its own; only pool functions send/receive on task channels; on the batch paths the pool is sized by the configured concurrency read from the node being run, items are executed only inside submitted tasks when concurrency>0 and only by the in-order sequential loop (index 0, step 1) when concurrency<=0. Hence at most c executions in flight and exactly c independent workers.",
 		CaseRule:    "an obligation instance is one (abstract path, event) pair or one static loop/package scan; distinct = distinct rule@construct keys",
 		Floors: []Floor{{"C08.R1@package:go-statements", 1, "single go statement"}, {"C08.R1@NewWorkerPool:spawn", 1, "worker start"}, {"C08.R1@NewWorkerPool:spawn-loop-count", 1, "spawn loop arithmetic"}, {"C08.R1@NewWorkerPool:spawn-bound", 1, "bound provenance (workers>0 and workers<=0)"},
